@@ -84,7 +84,7 @@ def gen_scenario(rng, focus="mixed", length=None):
                 ev = ("issue", rid, rng.choice(kinds))
                 issued.append((rid, ev[2]))
             elif x < 0.52:
-                ev = ("ack", r.proto._pack_seq if rng.random() < 0.8 else rng.randrange(4))
+                ev = ("ack", r.cur_seq() if rng.random() < 0.8 else rng.randrange(4))
             elif x < 0.68 and live:
                 if rng.random() < 0.25:
                     # two responses in one read chunk: a duplicate, or the responses of two outstanding requests
